@@ -335,6 +335,30 @@ CHECKS = {
         'step callbacks serialised (no OS-thread races); GnuPG/GUI/log '
         'server/git/module reload stubbed.',
     ),
+    'C12': (
+        'fsm-rig', 'exploration',
+        'Hypothesis-generated words (random, and built from reload cycles) '
+        'of submissions, single-stepped pollers, crew/executing/queue '
+        'progress, idle archives and step completions on the real FSM; spy '
+        'on update_trigger judged against a harness model of the strongest '
+        'priority requested since the last reload; bounded-liveness drain',
+        'Submissions go through the real fe.submit.Process (refusal in '
+        'step_1, crossroads in step_3) or straight to set_submit_info + '
+        'submit_crossroads; the real is_crew_done / is_doing_done / '
+        'is_todo_done loops are evaluated one iteration per poll event; '
+        'progress is applied to farm._busy and schedule.que. At every '
+        'accepted update_trigger the condition of the strongest priority '
+        'accepted since the last reload must hold (NOW: none; CREW: no busy '
+        'worker; DOING: view_doing() empty; TODO: queue empty), there was a '
+        'submission, and it is the only trigger of the cycle; an '
+        'update_trigger that raises MachineError is a violation; a refused '
+        'submission changes nothing; at the end everything is made idle, '
+        'all pollers are polled and all steps completed (3 rounds) and no '
+        'accepted submission may remain without its reload. Several reload '
+        'cycles per word, priorities re-used after being overtaken.',
+        'pollers and callbacks serialised on the harness thread; the merge / '
+        'compliance step of a submission is a stub.',
+    ),
 }
 
 NOT_YET = 'check not built yet in this session (planned, see DESIGN.md section 4)'
